@@ -64,9 +64,12 @@ def check(ctx: Ctx) -> list[RuleResult]:
 
     # ---- R3 ---------------------------------------------------------------------------
     r3 = RuleResult("R3", "nothing escapes into the event loop", "may_raise = ∅ for every callback/task the FSM schedules and for the protocol's notifications", min_instances=7)
+    from .common import fsm_roles
+
+    _eff0, _exp0 = fsm_roles(ctx)
     names = [
-        "ProtocolContext.set_state.effect_state",
-        "ProtocolContext.set_state.expire_state_on_timeout",
+        _eff0.qualname[len(MOD) + 1 :],
+        _exp0.qualname[len(MOD) + 1 :],
         "ProtocolContext._check_buffer_for_cmd",
         "ProtocolContext.pkt_received",
         "ProtocolContext.connection_made",
@@ -187,7 +190,7 @@ def check(ctx: Ctx) -> list[RuleResult]:
 
     # ---- R7 ---------------------------------------------------------------------------
     r7 = RuleResult("R7", "the expiry timer is re-armed on every way into a sending state", "in effect_state the timer-arming statement is reachable on both edges of `timed_out`", min_instances=1)
-    eff = repo.func(f"{MOD}.ProtocolContext.set_state.effect_state")
+    eff = _eff0
     cfg7 = ctx.plain_cfg(eff)
     arm = [x for x in cfg7.nodes if x.kind == "stmt" and isinstance(x.ast, ast.Assign) and norm(x.ast.targets[0]) == "self._expiry_timer" and "create_task" in norm(x.ast.value)]
     tt = [x for x in cfg7.nodes if x.kind == "test" and any(isinstance(y, ast.Name) and y.id == "timed_out" for y in ast.walk(x.ast))]
@@ -214,7 +217,7 @@ def check(ctx: Ctx) -> list[RuleResult]:
     # machine" - strands the sender in WantEcho/WantRply with no timer when that somebody never comes (the awaiting task was
     # cancelled from outside, not by send_cmd's own timeout)
     r8 = RuleResult("R8", "an expired wait always changes the state", "in expire_state_on_timeout every normal path from the end of the sleep to the exit passes set_state()", min_instances=1)
-    exp8 = repo.func(f"{MOD}.ProtocolContext.set_state.expire_state_on_timeout")
+    exp8 = _exp0
     cfg8 = ctx.plain_cfg(exp8)
     sleeps = [x for x in cfg8.nodes if x.ast is not None and x.kind == "stmt" and any(isinstance(c, ast.Await) for c in ast.walk(x.ast)) and "sleep" in norm(x.ast)]
     if not sleeps:
